@@ -343,8 +343,8 @@ def quiet():
 def real_rewrite(expr, timeout=10):
     """`expr.rewrite(functional_algorithms.rewrite)` under a watchdog.  -> ("ok", Expr) | ("err", name, where)"""
     F = fa()
-    old = signal.signal(signal.SIGALRM, _alarm)
-    signal.alarm(timeout)
+    old = signal.signal(signal.SIGPROF, _alarm)  # CPU time, independent of machine load
+    signal.setitimer(signal.ITIMER_PROF, timeout)
     try:
         with quiet():
             r = expr.rewrite(F.rewrite)
@@ -360,8 +360,8 @@ def real_rewrite(expr, timeout=10):
                 break
         return ("err", exc_name(ex), where)
     finally:
-        signal.alarm(0)
-        signal.signal(signal.SIGALRM, old)
+        signal.setitimer(signal.ITIMER_PROF, 0)
+        signal.signal(signal.SIGPROF, old)
 
 
 def new_context():
